@@ -100,6 +100,21 @@ func c09(c *an.Check) {
 				r := s.Rel(nres, ssa.NewConst(zeroInt(), nres.Type()))
 				return r != an.ANY && r&an.EQ == 0
 			}}}})
+		// ownership: a buffer that was offered to the queue is never handed back to the arena by the pump
+		c.Gate(an.GateSpec{Rule: "OWNERSHIP", Construct: "rwc.Conn.rxPump recycles a read buffer", Fn: rx,
+			Sink: func(s *an.State, ins ssa.Instruction) bool {
+				call, ok := ins.(*ssa.Call)
+				if !ok || !an.IsCallTo(call, an.X("sync", "Pool", "Put")) {
+					return false
+				}
+				return stripIface(call.Call.Args[1]) == varOf(r0.Call.Args[0])
+			},
+			Reqs: []an.Req{{Name: "the buffer was not queued in this iteration (nothing was read into it)", Holds: func(s *an.State, at ssa.Instruction) bool {
+				if s.ExecutedSince(at, r0, func(i ssa.Instruction) bool { _, _, isSend := an.SelectSend(i); return isSend }) {
+					return false
+				}
+				return s.Rel(nres, ssa.NewConst(zeroInt(), nres.Type())) == an.EQ
+			}}}})
 		c.ErrProp(an.ErrPropSpec{Construct: "rwc.Conn.rxPump propagates the read error", Fn: rx, ErrIdx: -1, Failing: func(s *an.State) (bool, string) {
 			return s.NonNil(an.ErrResult(r0, -1)), "rwc.Read failed"
 		}})
